@@ -342,7 +342,13 @@ def l1_l2(prog: Program, chk: Check) -> None:
             for d in du.reaching(nid, shape_e.id):
                 v = d.value
                 if isinstance(v, ast.Constant):
-                    variants.append((v.value, None, d.node))
+                    # the shape chosen by an if statement: the branch condition is the premise
+                    ctx = branch_context(u.node, d.stmt) if d.stmt is not None else []
+                    cond_ = None
+                    if ctx:
+                        t_, br_ = ctx[-1]
+                        cond_ = t_ if br_ else ast.UnaryOp(op=ast.Not(), operand=t_)
+                    variants.append((v.value, cond_, d.node))
                 elif isinstance(v, ast.IfExp) and isinstance(v.body, ast.Constant) \
                         and isinstance(v.orelse, ast.Constant):
                     variants.append((v.body.value, v.test, d.node))
